@@ -94,6 +94,12 @@ type pipe struct {
 	// failAt: the failAt-th Write (counted from 1; 0 = never) returns an
 	// error and the direction ends: the transport broke under the writer.
 	failAt int
+	// partial: a script of partial writes: the pipe accepts partial[0]
+	// bytes and fails the Write with a timeout, then partial[1] more bytes,
+	// and so on; when the script is over it accepts everything.
+	partial     []int
+	partialLeft int
+	partialOn   bool
 }
 
 var errTransportBroke = errors.New("write: connection reset by peer")
@@ -115,6 +121,27 @@ func (p *pipe) Write(b []byte) (int, error) {
 		p.closed = true
 		p.cond.Broadcast()
 		return 0, errTransportBroke
+	}
+	if len(p.partial) > 0 || p.partialOn {
+		if !p.partialOn {
+			p.partialOn = true
+			p.partialLeft, p.partial = p.partial[0], p.partial[1:]
+		}
+		if p.partialLeft < len(b) {
+			n := p.partialLeft
+			if n > 0 {
+				p.written = append(p.written, append([]byte{}, b[:n]...))
+				p.chunks = append(p.chunks, append([]byte{}, b[:n]...))
+			}
+			p.partialOn = false
+			if len(p.partial) > 0 {
+				p.partialOn = true
+				p.partialLeft, p.partial = p.partial[0], p.partial[1:]
+			}
+			p.cond.Broadcast()
+			return n, timeoutErr{}
+		}
+		p.partialLeft -= len(b)
 	}
 	c := append([]byte{}, b...)
 	idx := len(p.written)
